@@ -67,7 +67,13 @@ pub fn fail<T>(aid: &str, msg: String) -> Result<T, Failure> {
 
 /// Per-case context: labels for the evidence histogram, the non-triviality verdict, the case hash,
 /// and which known findings are listed (so decoders can exclude their triggers by construction).
+/// Set by the libFuzzer front-end (see `Ctx::light`).
+pub static LIGHT_MODE: std::sync::atomic::AtomicBool = std::sync::atomic::AtomicBool::new(false);
+
 pub struct Ctx {
+    /// true under the coverage-guided front-end: decoders skip their rare very large cases there (the fuzzer would learn to
+    /// produce them all the time, and every execution would cost seconds)
+    pub light: bool,
     /// true in the main budget: decoders avoid triggers of listed known findings.
     pub avoid_known: bool,
     pub labels: BTreeSet<&'static str>,
@@ -85,6 +91,7 @@ pub struct Ctx {
 impl Ctx {
     pub fn new(avoid_known: bool) -> Self {
         Ctx {
+            light: LIGHT_MODE.load(std::sync::atomic::Ordering::Relaxed),
             avoid_known,
             labels: BTreeSet::new(),
             nontrivial: false,
